@@ -279,11 +279,13 @@ def R3_odometer(ctx):
         incs = []
         lp = innermost_loop(nb, sbb)
         region = nb.reachable(start=tr_, removed_blocks=[lp[0]] if lp else [])
-        for bb in region:
-            tt = nb.blocks[bb]["term"]
-            if tt["k"] == "assert" and tt.get("msg") == "Overflow" and tt.get("op") == "Add":
-                bconst = ntm.operand(tt["b"], bb)
-                incs.append(bconst)
+        for bb in sorted(region):
+            for pos_, st_ in enumerate(nb.blocks[bb]["stmts"]):
+                # a store `*p = *p + c` (debug: through a checked-add temporary; release: a plain Add)
+                if st_["k"] == "assign" and st_["place"]["p"] and st_["place"]["p"][0]["k"] == "deref":
+                    v_ = nosite(deep_strip(ntm.rvalue(st_["rv"], bb, pos_)))
+                    if v_[0] == "bin" and v_[1] == "Add" and v_[3][0] == "const":
+                        incs.append(v_[3])
         oka = oka and incs == [("const", "usize", 1)] and (lp is None or lp[0] not in nb.reachable(start=tr_, removed_blocks=[]) or True)
         leaves = lp is not None and lp[0] not in nb.reach_from_succs(tr_, removed_blocks=[b2 for b2 in nb.reachable(start=f_) if False])
     ctx.check(oka, "next:increment-by-one", "the first position below its final value is not incremented by exactly 1 (`pos[i] < final_pos[i]` => pos[i] += 1)", nb.where(), detail="pos[i] < final[i] => pos[i] += 1; break")
